@@ -1237,3 +1237,65 @@ example : QDef (K := ℚ) (fun i : Fin 2 => decide (i = 0)) (Mat.ofFn fun i j =>
     simp only [Fin.isValue, and_self, and_true, if_true, h10, if_false, mul_zero, add_zero, zero_mul, zero_add, false_and]
     linarith
 end Piqp.C14
+
+/-! ## Uniqueness: every loop order computes the factors of the recursion -/
+
+namespace Piqp.C14
+open Finset
+variable {K : Type} [Field K] [DecidableEq K]
+
+theorem minorM_get {n : Nat} (L : Mat K (n+1) (n+1)) (i j : Fin n) : (minorM L)[i][j] = L[i.succ][j.succ] := by
+  simp [minorM, Mat.ofFn]
+theorem tailV_get {n : Nat} (v : Vec K (n+1)) (i : Fin n) : (tailV v)[i] = v[i.succ] := by
+  simp [tailV]
+
+/-- **the pivot-free LDLᵀ factorisation is unique**: whatever algorithm (up-looking with an elimination tree, left-looking,
+    blocked) produced a unit lower triangular `L` and a diagonal `D` without zeros with `L D Lᵀ = A`, the recursion of the model
+    succeeds on `A` and returns that `D` and that `L`. This is what entitles the model to denote every loop order of the code by one
+    recursion. -/
+theorem ldlt_unique : ∀ (n : Nat) (A L : Mat K n n) (D : Vec K n),
+    (∀ i : Fin n, L[i][i] = 1) → (∀ i j : Fin n, i < j → L[i][j] = 0) → (∀ i : Fin n, D[i] ≠ 0) →
+    (∀ i j : Fin n, ∑ k : Fin n, L[i][k] * D[k] * L[j][k] = A[i][j]) →
+    ∃ L' D', ldlt n A = .ok (L', D') ∧ (∀ i : Fin n, D'[i] = D[i]) ∧ ∀ i j : Fin n, L'[i][j] = L[i][j]
+  | 0, _, _, _, _, _, _, _ => ⟨_, _, rfl, fun i => i.elim0, fun i => i.elim0⟩
+  | n+1, A, L, D, hdiag, hup, hD, hprod => by
+    have hL0 : ∀ k : Fin n, L[(0 : Fin (n+1))][k.succ] = 0 := fun k => hup 0 k.succ (Fin.succ_pos k)
+    have h00 : A[(0 : Fin (n+1))][(0 : Fin (n+1))] = D[(0 : Fin (n+1))] := by
+      rw [← hprod 0 0, Fin.sum_univ_succ]
+      simp only [hL0, zero_mul, mul_zero, Finset.sum_const_zero, add_zero, hdiag 0, one_mul, mul_one]
+    have hcol : ∀ i : Fin n, A[i.succ][(0 : Fin (n+1))] = L[i.succ][(0 : Fin (n+1))] * D[(0 : Fin (n+1))] := by
+      intro i
+      rw [← hprod i.succ 0, Fin.sum_univ_succ]
+      simp only [hL0, mul_zero, Finset.sum_const_zero, add_zero, hdiag 0, mul_one]
+    have hd0 : A[(0 : Fin (n+1))][(0 : Fin (n+1))] ≠ 0 := by rw [h00]; exact hD 0
+    have hl : ∀ i : Fin n, (colDiv A A[(0 : Fin (n+1))][(0 : Fin (n+1))])[i] = L[i.succ][(0 : Fin (n+1))] := by
+      intro i
+      rw [colDiv_get, hcol i, h00]
+      exact mul_div_cancel_right₀ _ (hD 0)
+    have hS : ∀ i j : Fin n, ∑ k : Fin n, (minorM L)[i][k] * (tailV D)[k] * (minorM L)[j][k] =
+        (schur A (colDiv A A[(0 : Fin (n+1))][(0 : Fin (n+1))]) A[(0 : Fin (n+1))][(0 : Fin (n+1))])[i][j] := by
+      intro i j
+      rw [schur_get, hl i, hl j, h00, ← hprod i.succ j.succ, Fin.sum_univ_succ]
+      simp only [minorM_get, tailV_get]
+      ring
+    obtain ⟨L', D', hrec, hD', hL'⟩ := ldlt_unique n _ (minorM L) (tailV D)
+      (fun i => by rw [minorM_get]; exact hdiag i.succ)
+      (fun i j hij => by rw [minorM_get]; exact hup i.succ j.succ (Fin.succ_lt_succ_iff.mpr hij))
+      (fun i => by rw [tailV_get]; exact hD i.succ) hS
+    refine ⟨consL 1 (colDiv A A[(0 : Fin (n+1))][(0 : Fin (n+1))]) L', consV A[(0 : Fin (n+1))][(0 : Fin (n+1))] D', ?_, ?_, ?_⟩
+    · unfold ldlt
+      simp only
+      have : (A[(0 : Fin (n+1))][(0 : Fin (n+1))] == 0) = false := by simpa using hd0
+      rw [this]
+      simp only [Bool.false_eq_true, if_false, hrec]
+    · intro i
+      refine Fin.cases ?_ (fun s => ?_) i
+      · rw [consV_zero, h00]
+      · rw [consV_succ, hD' s, tailV_get]
+    · intro i j
+      refine Fin.cases ?_ (fun s => ?_) i <;> refine Fin.cases ?_ (fun t => ?_) j
+      · rw [consL_00, hdiag 0]
+      · rw [consL_0s, hL0 t]
+      · rw [consL_s0, hl s]
+      · rw [consL_ss, hL' s t, minorM_get]
+end Piqp.C14
